@@ -6,9 +6,9 @@ From CF Require Import ZSum ListAux Defs Core Machines Config GraphLink Machines
 Open Scope Z_scope.
 
 Lemma acc_loop (S : list nat) : forall (row : dictZ) (o : Z),
-  fold_left (fun (acc_ : option Z) (kv_ : nat * Z) => match acc_ with None => None | Some out_degree => let '(neighbor_vertex, valence) := kv_ in
-     if negb (s_mem neighbor_vertex S) then let out_degree := out_degree + valence in Some out_degree else Some out_degree end) row (Some o)
-  = Some (o + zsum (fun kv => if s_mem (fst kv) S then 0 else snd kv) row).
+  fold_left (fun (acc_ : pyres unit Z) (kv_ : nat * Z) => match acc_ with PyExn e_ => PyExn e_ | PyOk out_degree => let '(neighbor_vertex, valence) := kv_ in
+     if negb (s_mem neighbor_vertex S) then let out_degree := out_degree + valence in PyOk out_degree else PyOk out_degree end) row (PyOk o)
+  = PyOk (o + zsum (fun kv => if s_mem (fst kv) S then 0 else snd kv) row).
 Proof. induction row as [|[w x] row IH]; intros o; [cbn; f_equal; lia|]. cbn [fold_left zsum fst snd]. destruct (s_mem w S); cbn [negb]; rewrite IH; f_equal; lia. Qed.
 
 Lemma row_out_degree g v row S : wfb g = true -> (v < nv g)%nat -> rep_row g v row ->
@@ -24,7 +24,7 @@ Proof. intros Hwf Hv [Nd Fr]. unfold out_degree_S.
   - intros [w x] Hin. cbn [fst snd]. pose proof (d_in_find w x row Nd Hin) as E. rewrite Fr in E. destruct (0 <? mult g v w); [|discriminate]. inversion E. reflexivity. Qed.
 
 Theorem get_out_degree_S_refines g gg vs q v S : wfb g = true -> rep_graph gg g -> rep_vset (nv g) vs ->
-  CFConfig_get_out_degree_S vs q gg v S = if Nat.ltb v (nv g) && negb (Nat.eqb v q) && mem v S then Some (out_degree_S g v S) else None.
+  CFConfig_get_out_degree_S vs q gg v S = if Nat.ltb v (nv g) && negb (Nat.eqb v q) && mem v S then PyOk (out_degree_S g v S) else PyExn tt.
 Proof. intros Hwf Hgg Hvs. unfold CFConfig_get_out_degree_S. rewrite (Hvs v). destruct (Nat.ltb_spec v (nv g)) as [Hv|Hv]; cbn [negb andb]; [|reflexivity].
   destruct (Nat.eqb v q); cbn [negb andb]; [reflexivity|]. change (s_mem v S) with (mem v S). destruct (mem v S); cbn [negb]; [|reflexivity].
   rewrite (rep_graph_mem gg g v Hgg). assert (E : Nat.ltb v (nv g) = true) by (apply Nat.ltb_lt; exact Hv). rewrite E.
